@@ -199,6 +199,10 @@ impl<T> std::ops::Deref for Sh<T> {
 fn viol(prop: &str, class: &str, msg: String) -> ! {
     sim::violation(prop, class, msg)
 }
+/// oracle-level violation: aborts only when it counts for the property under check
+fn soft(prop: &str, class: &str, msg: String) {
+    sim::soft_violation(prop, class, msg)
+}
 
 // ------------------------------------------------------------------------------------------------
 // reading items through the public API
@@ -292,7 +296,7 @@ impl<'a> Ui<'a> {
         let got = n.active_injectors();
         sim::probe("oracle.c20");
         if got != want as usize {
-            viol(
+            soft(
                 "C20",
                 "active-injectors",
                 format!("{what}: active_injectors() = {got}, live injectors of the current stream {} = {want}", self.cur_stream),
@@ -317,7 +321,7 @@ impl<'a> Ui<'a> {
         let mut shown: Option<u32> = None;
         let mut prev: Option<(u32, u32, u32)> = None;
         if s.matched_item_count() as usize != s.matches().len() {
-            viol("C06", "count", format!("{what}: matched_item_count {} != matches().len() {}", s.matched_item_count(), s.matches().len()));
+            soft("C06", "count", format!("{what}: matched_item_count {} != matches().len() {}", s.matched_item_count(), s.matches().len()));
         }
         for (k, m) in s.matches().iter().enumerate() {
             // clause 1: through the safe accessor first
@@ -332,12 +336,12 @@ impl<'a> Ui<'a> {
                 _ => {}
             }
             if !seen.insert(m.idx) {
-                viol("C06", "duplicate", format!("{what}: index {} (uid {uid}) appears twice in the matches", m.idx));
+                soft("C06", "duplicate", format!("{what}: index {} (uid {uid}) appears twice in the matches", m.idx));
             }
             // clause 3
             let sc = s.pattern().score(it.matcher_columns, &mut self.refm);
             if sc != Some(m.score) {
-                viol(
+                soft(
                     "C06",
                     "score",
                     format!(
@@ -359,7 +363,7 @@ impl<'a> Ui<'a> {
                     (std::cmp::Reverse(p.0), p.1, p.2) < (std::cmp::Reverse(m.score), len, m.idx)
                 };
                 if !ok {
-                    viol(
+                    soft(
                         "C06",
                         "order",
                         format!("{what}: matches out of order at #{k}: (score,len,idx) {:?} then {:?} (empty pattern: {empty_pattern})", p, (m.score, len, m.idx)),
@@ -370,12 +374,12 @@ impl<'a> Ui<'a> {
             // the unchecked accessors must agree
             let it2 = s.get_matched_item(k as u32).unwrap();
             if !std::ptr::eq(it2.data, it.data) {
-                viol("C06", "accessor", format!("{what}: get_matched_item({k}) and get_item({}) disagree", m.idx));
+                soft("C06", "accessor", format!("{what}: get_matched_item({k}) and get_item({}) disagree", m.idx));
             }
         }
         let mi = s.matched_items(..).len();
         if mi != s.matches().len() {
-            viol("C06", "count", format!("{what}: matched_items(..) yields {mi} items for {} matches", s.matches().len()));
+            soft("C06", "count", format!("{what}: matched_items(..) yields {mi} items for {} matches", s.matches().len()));
         }
         // clause 4: M ⊆ P ⊆ initialised items of the stream, |P| = item_count, matching members of
         // P are exactly M  ⟹  item_count + #(initialised matching items not in M) ≤ #initialised
@@ -412,18 +416,18 @@ impl<'a> Ui<'a> {
             detail = format!("stream {st}: item_count={} matches={} initialised={init} matching-but-not-reported={missing}", s.item_count(), s.matches().len());
         }
         if !ok {
-            viol("C06", "processed-set", format!("{what}: no set of processed items explains the snapshot ({detail})"));
+            soft("C06", "processed-set", format!("{what}: no set of processed items explains the snapshot ({detail})"));
         }
         // C12: which stream is shown
         if let Some(x) = shown {
             if x > self.cur_stream {
-                viol("C12", "future-stream", format!("{what}: snapshot shows stream {x} > current {}", self.cur_stream));
+                soft("C12", "future-stream", format!("{what}: snapshot shows stream {x} > current {}", self.cur_stream));
             }
             if x == self.cur_stream {
                 self.awaiting_new_stream = false;
                 self.frozen = None;
             } else if !self.awaiting_new_stream {
-                viol("C12", "old-stream", format!("{what}: snapshot shows items of stream {x} although a snapshot of the current stream {} was already produced", self.cur_stream));
+                soft("C12", "old-stream", format!("{what}: snapshot shows items of stream {x} although a snapshot of the current stream {} was already produced", self.cur_stream));
             }
         }
         ledger::with(|l| l.snapshot_stream = shown);
@@ -433,7 +437,7 @@ impl<'a> Ui<'a> {
             if still_old {
                 let now = (s.matches(), s.item_count(), pattern_atoms(s.pattern(), cols));
                 if now.0 != &fm[..] || now.1 != *fic || &now.2 != fpat {
-                    viol("C12", "frozen-changed", format!("{what}: the pre-restart snapshot changed while it was still shown"));
+                    soft("C12", "frozen-changed", format!("{what}: the pre-restart snapshot changed while it was still shown"));
                 }
             }
         }
@@ -468,7 +472,7 @@ impl<'a> Ui<'a> {
         // C19
         sim::probe("oracle.c19");
         if !st.changed && before != after {
-            viol(
+            soft(
                 "C19",
                 "changed-false",
                 format!(
@@ -479,7 +483,7 @@ impl<'a> Ui<'a> {
         }
         if !st.running {
             if after.1 < completed_before {
-                viol(
+                soft(
                     "C19",
                     "running-false-count",
                     format!("{what}: tick({timeout}) reported running=false but item_count {} < {} pushes of stream {} completed before the call", after.1, completed_before, self.cur_stream),
@@ -487,7 +491,7 @@ impl<'a> Ui<'a> {
             }
             let cur = pattern_atoms(&self.n().pattern, cols);
             if cur != after.2 {
-                viol("C19", "running-false-pattern", format!("{what}: tick({timeout}) reported running=false but the snapshot pattern [{}] is not the current pattern [{cur}]", after.2));
+                soft("C19", "running-false-pattern", format!("{what}: tick({timeout}) reported running=false but the snapshot pattern [{}] is not the current pattern [{cur}]", after.2));
             }
         }
         self.check_snapshot(what);
@@ -511,7 +515,7 @@ impl<'a> Ui<'a> {
         sim::log(format!("ui restart({clear}) -> stream {}", self.cur_stream));
         if clear {
             if !s.matches().is_empty() || s.item_count() != 0 {
-                viol("C12", "clear", format!("restart(true) left {} matches / item_count {} in the snapshot", s.matches().len(), s.item_count()));
+                soft("C12", "clear", format!("restart(true) left {} matches / item_count {} in the snapshot", s.matches().len(), s.item_count()));
             }
             self.frozen = None;
             self.awaiting_new_stream = false;
@@ -519,7 +523,7 @@ impl<'a> Ui<'a> {
         } else {
             let now = (s.matches().to_vec(), s.item_count(), pattern_atoms(s.pattern(), cols));
             if now != before {
-                viol("C12", "restart-changed", "restart(false) changed the snapshot".to_string());
+                soft("C12", "restart-changed", "restart(false) changed the snapshot".to_string());
             }
             if self.frozen.is_none() {
                 self.frozen = Some(before);
@@ -576,7 +580,8 @@ impl<'a> Ui<'a> {
                 sim::probe("quiesce.vacuous");
                 return;
             }
-            viol("C07", "no-quiescence", "no injector is active, no fault left a hole, but 48 ticks never reported running=false".to_string());
+            soft("C07", "no-quiescence", "no injector is active, no fault left a hole, but 48 ticks never reported running=false".to_string());
+            return;
         };
         // precondition of C07: no injector active any more — writers are joined; UI-held handles
         // do not inject
@@ -619,16 +624,16 @@ impl<'a> Ui<'a> {
         let s = n.snapshot();
         let got: Vec<(u32, u32)> = s.matches().iter().map(|m| (m.idx, m.score)).collect();
         if s.item_count() != total {
-            viol("C07", "item-count", format!("quiescent snapshot has item_count {} but {total} items were injected into the stream", s.item_count()));
+            soft("C07", "item-count", format!("quiescent snapshot has item_count {} but {total} items were injected into the stream", s.item_count()));
         }
         let snap_atoms = pattern_atoms(s.pattern(), cols);
         let fresh_atoms = pattern_atoms(&fresh, cols);
         if snap_atoms != fresh_atoms {
-            viol("C07", "pattern", format!("quiescent snapshot pattern [{snap_atoms}] differs from a fresh parse [{fresh_atoms}] of {:?}", self.texts));
+            soft("C07", "pattern", format!("quiescent snapshot pattern [{snap_atoms}] differs from a fresh parse [{fresh_atoms}] of {:?}", self.texts));
         }
         if got != want {
             let first = got.iter().zip(&want).position(|(a, b)| a != b).unwrap_or(got.len().min(want.len()));
-            viol(
+            soft(
                 "C07",
                 "matches",
                 format!(
@@ -992,7 +997,7 @@ fn writer_main(w: usize, inj: Injector<Payload>, s: u32, ops: Vec<WOp>, gates: V
                         }
                         if let Some(k) = k {
                             if k != uid {
-                                viol("C08", "moved", format!("get({idx}) returned uid {uid}, push returned that index for uid {k}"));
+                                soft("C08", "moved", format!("get({idx}) returned uid {uid}, push returned that index for uid {k}"));
                             }
                         }
                     }
@@ -1000,14 +1005,14 @@ fn writer_main(w: usize, inj: Injector<Payload>, s: u32, ops: Vec<WOp>, gates: V
                     (None, None) => {}
                 }
                 if got.is_some() && *idx >= reserved {
-                    viol("C08", "phantom", format!("get({idx}) returned an item but only {reserved} indices were ever reserved"));
+                    soft("C08", "phantom", format!("get({idx}) returned an item but only {reserved} indices were ever reserved"));
                 }
             }
             WOp::Count => {
                 let done = model(|m| stream(m, s).completed);
                 let c = inj.injected_items();
                 if c < done {
-                    viol("C08", "count", format!("injected_items() = {c} < {done} completed pushes"));
+                    soft("C08", "count", format!("injected_items() = {c} < {done} completed pushes"));
                 }
             }
             WOp::Burn { k } => {
@@ -1155,7 +1160,7 @@ fn check_notify_visibility(w: usize) {
     filled += uids.len();
     sim::probe("oracle.c13.notify_visibility");
     if found != filled {
-        viol("C13", "notify-before-visible", format!("writer{w}: notify was called during push/extend of uids {uids:?} but only {found} of them are visible"));
+        soft("C13", "notify-before-visible", format!("writer{w}: notify was called during push/extend of uids {uids:?} but only {found} of them are visible"));
     }
 }
 
